@@ -1,6 +1,6 @@
 ------------------------------- MODULE MCFasta -------------------------------
 (* The line scanner shared by the FASTA readers, stepped line by line over      *)
-(* every stream of <= MaxLines lines over the 11 line kinds: a valid stream     *)
+(* every stream of <= MaxLines lines over the 13 line kinds: a valid stream     *)
 (* yields exactly Records(lines); a stream in one of the statement's error      *)
 (* classes ends in an error; every stream ends in records or an error (total).  *)
 EXTENDS FastaScan
